@@ -30,6 +30,7 @@ type c02Case struct {
 	Partition     int32    `json:"partition"`
 	Templates     int      `json:"claim_templates"`
 	ServiceEdited bool     `json:"service_name_edited_after_pods_were_built"`
+	Collisions    int32    `json:"status_collision_count"` // the set has since seen this many revision-name collisions (its revision was named under count 0)
 	Failure       string   `json:"failure,omitempty"`
 	Writes        []string `json:"writes,omitempty"`
 }
@@ -92,6 +93,10 @@ func c02Judge(c *c02Case) string {
 		return ""
 	}
 	rev := revs[0].Name
+	if c.Collisions > 0 {
+		cc := c.Collisions
+		set.Status.CollisionCount = &cc
+	}
 	var pods []*v1.Pod
 	for _, o := range helper.GetPodOrdinals(c.Replicas, set).List() {
 		p := newVersionedStatefulSetPod(set, set, rev, rev, int(o))
@@ -222,6 +227,10 @@ func TestReplayC02(t *testing.T) {
 						tried++
 						c := &c02Case{Replicas: r, Slots: slots, Policy: pol, Strategy: st[0].(string), Partition: st[1].(int32), Templates: tm % 3, ServiceEdited: tm == 3}
 						msg := c02Judge(c)
+						if msg == "" {
+							c = &c02Case{Replicas: r, Slots: slots, Policy: pol, Strategy: st[0].(string), Partition: st[1].(int32), Templates: tm % 3, Collisions: 1}
+							msg = c02Judge(c)
+						}
 						key := msg
 						if len(key) > 24 {
 							key = key[:24]
